@@ -27,7 +27,6 @@ RU = "PyMatterSim.reader.reader_utils"
 
 NOT_DECIDED = [
     "int(period / interval) when the floating-point quotient of an exact multiple lands just below the integer (A1: floats are reals; in the reals int() of a positive quotient is its floor, which is what is proved)",
-    "gaussian_blurring: the step from the proved per-store facts (flat index in range, injective, row-major; stored point = (X_i,Y_j[,Z_k]); loops cover all index tuples) to 'the returned array holds every grid point exactly once in x-slowest order' is the scatter-store lemma (every slot written by exactly one iteration keeps that iteration's value); it is not discharged by SMT for symbolic grid sizes — a BOUNDED run (grids 2x3, 3x2, 4x2, 2x2x3, 3x2x2, one frame, loops unrolled by the engine) checks the returned array itself and is reported under `bounded`",
     "gaussian_blurring values exactly at |D| == gaussian_cut and at half-cell ties of the minimum image: decided in the reals (strict <), replayed in floats only on an exactly representable tie",
     "spatial_average / gaussian_blurring on integer-typed property arrays (in-place true division into an int array): outside the documented float inputs",
     "content of the neighbour file itself (which particles are neighbours): C05; here the file is an arbitrary well-formed neighbour-list file",
@@ -37,7 +36,7 @@ TRUSTED = [
     "well-formed neighbour file (precondition, instantiated per read): listed counts >= 0, listed ids are particle ids 1..nparticle of the same trajectory, the file has at least as many records as the property has frames",
     "callee contract of remove_pbc = contracts/C02.pbc_spec_row (proved by C02 against the real body): requires det H != 0 (assumed for every frame) and a 0/1 mask",
     "assumed library contracts (pyvc/libext/C16.py, pyvc/lib.py): open() returns a handle at record 0; np.linspace(a,b,n)[i] = a + i (b-a)/(n-1) for n >= 2; np.linalg.norm(axis=1) = sqrt of the row sum of squares; boolean-mask selection keeps the selected rows in order, so products of two selections by the SAME mask pair up row by row and their sum is the masked sum; np.prod, np.zeros, np.copy (fresh copy), np.save (file-write event), enumerate, round (half to even), int (truncation)",
-    "loop rule extensions of pyvc/loops.py (closed forms checked by the same init/step obligations): file read positions, conditional accumulation, scatter update with the old content of the written slot, zero-trip merging; the scatter-store nest rule only OVER-approximates the nest (unknown content inside the reachable region) and records the store as a probe",
+    "loop rule extensions of pyvc/loops.py (closed forms checked by the same init/step obligations): file read positions, conditional accumulation, scatter update with the old content of the written slot, zero-trip merging; the scatter-store nest rule records the store as a probe and takes a WRITTEN ghost inverse of the store index from the contract (row-major decoding, from the statement): that the slot with index p is written by iteration decode(p) and by no other iteration are obligations generated from the real store condition; given them the post-content stored-value(decode(p)) is the scatter-store rule (a slot written by exactly one iteration, with a value independent of the array and of loop-carried state, holds that value) — the rule itself is trusted like the other loop summaries",
     "spec of the central frame for even windows: either of the two middle frames is accepted (|2m - (2n+w-1)| <= 1); for odd windows the unique middle frame n+(w-1)/2",
 ]
 
@@ -590,6 +589,39 @@ def _min_image_dist(gp_row, pos_row, Hm, pl, d):
     return sv.sqrt(s)
 
 
+def decode_row_major(p, ng):
+    """index tuple of flat position p in row-major (first axis slowest) order over a grid of ng[0] x ng[1] (x ng[2]) points;
+    integer division and remainder of non-negative numbers (z3 div/mod)"""
+    pz = sv.znum(p)
+    out = []
+    for g in reversed(ng[1:]):
+        gz = sv.znum(g)
+        out.append(sv.wrap(pz % gz))
+        pz = pz / gz
+    out.append(sv.wrap(pz))
+    return list(reversed(out))
+
+
+def divmod_unique(a, b, q, r):
+    """b > 0, 0 <= r < b, a = q b + r  ==>  a div b = q and a mod b = r   (uniqueness of Euclidean division; proved on fresh
+    variables as lemma C16:euclidean-division-is-unique, used through instances)"""
+    az, bz, qz, rz = sv.znum(a), sv.znum(b), sv.znum(q), sv.znum(r)
+    return z3.Implies(z3.And(bz > 0, rz >= 0, rz < bz, az == qz * bz + rz), z3.And(az / bz == qz, az % bz == rz))
+
+
+def divmod_hints(p, tup, ng):
+    """instances of divmod_unique that peel the row-major flat index p of the index tuple `tup` axis by axis (last axis first)"""
+    out = []
+    pz = sv.znum(p)
+    for c in range(len(ng) - 1, 0, -1):
+        head = tup[0]
+        for k in range(1, c):
+            head = sv.add(sv.mul(head, ng[k]), tup[k])
+        out.append(divmod_unique(sv.wrap(pz), ng[c], head, tup[c]))
+        pz = pz / sv.znum(ng[c])
+    return out
+
+
 class GaussianBlurring(Unit):
     module = MOD
     qualname = "gaussian_blurring"
@@ -632,14 +664,27 @@ class GaussianBlurring(Unit):
         ctx.assume(cut > 0)
         outp = "gb" if len(parts) > 2 else ""
         watch += [C.sid, ngrids.sid, ppp.sid]
+        # written ghost inverse of the flat grid index, from the statement ("each grid point exactly once, x slowest"): slot p of a
+        # frame holds the grid point with the row-major index tuple decode(p) = (p div n1, p mod n1) / ((p div n2) div n1, (p div n2) mod n1, p mod n2)
+        from pyvc.loops import make_scatter_nest_rule
+
+        def inverse(name, idx, ranges, lvars, ng=ng, d=d):
+            if name != "grid_positions" or len(idx) != 3 or len(ranges) != d:
+                return None
+            return decode_row_major(idx[1], ng), divmod_hints(idx[1], lvars, ng)
+        ctx.interp.loop_hints = dict(ctx.interp.loop_hints)
+        ctx.interp.loop_hints[(MOD + ".gaussian_blurring", "for", "*")] = make_scatter_nest_rule(inverse, clause=self.INV)
         inp = dict(d=d, rank=rank, T=T, N=N, dims=dims, C=C, ng=ng, pl=pl[:d], sigma=sigma, cut=cut, F=F, watch=watch, outputfile=outp)
         return [snaps, C, ngrids], {"sigma": sigma, "ppp": ppp, "gaussian_cut": cut, "outputfile": outp}, inp
 
     GRID = ["grid:loops-run-over-all-n0*n1(*n2)-index-tuples", "grid:flat-index-inside-[0,prod-n)", "grid:each-point-exactly-once(index-injective)",
             "grid:x-slowest-row-major-order", "grid:stored-point=(X_i,Y_j[,Z_k])-equally-spaced-over-box-bounds"]
 
+    INV = "grid:every-slot-of-a-frame-is-written-by-exactly-the-iteration-with-its-row-major-index-tuple"
+    RET = "grid:returned-array=full-cartesian-grid-each-point-exactly-once-x-slowest"
+
     def clause_names(self, case):
-        return ["shape", "grid:construction-is-a-scatter-store-nest"] + self.GRID + \
+        return ["shape", "grid:construction-is-a-scatter-store-nest", self.INV, self.RET] + self.GRID + \
             ["value:sum-over-particles-within-cutoff-of-normalised-gaussian(min-image-distance)*property", "frame:inputs-not-written",
              "saved-files=returned"]
 
@@ -680,8 +725,9 @@ class GaussianBlurring(Unit):
                 primed = [ctx.int(f"v{k}'") for k in range(d)]
                 flat2 = sv.wrap(z3.substitute(flat.t, *[(v.t, q.t) for (v, _, _), q in zip(lv, primed)]))
                 rng2 = sv.and_(*[sv.and_(sv.cmp(">=", q, 0), sv.cmp("<", q, ng[k])) for k, q in enumerate(primed)])
+                hints = divmod_hints(flat, [v for v, _, _ in lv], ng) + divmod_hints(flat, primed, ng)      # valid formulas (lemma instances)
                 yield self.GRID[2], under(sv.implies(sv.and_(rng2, sv.cmp("==", flat, flat2)),
-                                                     sv.and_(*[sv.cmp("==", v, q) for (v, _, _), q in zip(lv, primed)]))), TE
+                                                     sv.and_(*[sv.cmp("==", v, q) for (v, _, _), q in zip(lv, primed)]))), dict(TE, assume=hints)
                 rm = lv[0][0]
                 for k in range(1, d):
                     rm = sv.add(sv.mul(rm, ng[k]), lv[k][0])
@@ -700,6 +746,17 @@ class GaussianBlurring(Unit):
         tr = [ctx.int(f"a{k}") for k in range(len(dims))]
         rng = _inr((n, T), (p, G), *zip(tr, dims))
         F = inp["F"]
+        # ---- the RETURNED array (after the whole nest and the frame loop): slot p of frame n is the grid point whose index tuple is the
+        #      row-major decoding of p, i.e. every point of the n0 x n1 (x n2) grid appears exactly once, x slowest (decode is a bijection
+        #      [0, prod n) -> prod [0, n_c): lemma row-major-decode-is-a-bijection)
+        dec = decode_row_major(p, ng)
+        BBf = F["BB"]
+        pts = []
+        for c in range(d):
+            lo_c = sv.SV(BBf(n.t, z3.IntVal(c), z3.IntVal(0)))
+            hi_c = sv.SV(BBf(n.t, z3.IntVal(c), z3.IntVal(1)))
+            pts.append(sv.cmp("==", GP.get((n, p, c)), sv.add(lo_c, sv.mul(dec[c], sv.div(sv.sub(hi_c, lo_c), sv.sub(ng[c], 1))))))
+        yield self.RET, sv.implies(_inr((n, T), (p, G)), sv.and_(*pts))
         Hm = [[sv.SV(F["HM"](n.t, z3.IntVal(a), z3.IntVal(b))) for b in range(d)] for a in range(d)]
         # the returned point, read under the index ranges of the clause (picks the branch of the engine's case split on the indices)
         gp_row = [_resolve_ite(GP.get((n, p, c)), out.state.all_assumptions() + [sv.zb(rng)]) for c in range(d)]
@@ -711,8 +768,10 @@ class GaussianBlurring(Unit):
             r = _min_image_dist(gp_row, pos_row, Hm, inp["pl"], d)
             return sv.ite(sv.cmp("<", r, cut), lambda: sv.mul(gauss_spec(r, sigma), cr(tuple([n, q] + tr))), 0)
         want = Sum(0, N, term)
-        yield ("value:sum-over-particles-within-cutoff-of-normalised-gaussian(min-image-distance)*property",
-               sv.implies(rng, sv.cmp("==", GV.get(tuple([n, p] + tr)), want)), {"timeout": 4})
+        # the grid point enters the value only as a parameter: the clause is proved for an ARBITRARY point in its place (universal
+        # generalisation of the returned coordinates, which since the written inverse are closed forms with div/mod of the slot number)
+        vgoal, _ = sv.generalize(sv.implies(rng, sv.cmp("==", GV.get(tuple([n, p] + tr)), want)), gp_row)
+        yield ("value:sum-over-particles-within-cutoff-of-normalised-gaussian(min-image-distance)*property", vgoal, {"timeout": 4})
         yield "frame:inputs-not-written", len(_stores(out, inp["watch"])) == 0
         saves = [e for e in out.state.trace if e[0] == "np.save"]
         if inp["outputfile"]:
@@ -814,66 +873,54 @@ def _replay_blur(case, clause, model, seed):
 
 
 
-class _BoundedGrid(GaussianBlurring):
-    """BOUNDED stand-in (concrete grid sizes, one frame; loops unrolled by the engine): the array returned after the whole
-    loop nest is the full Cartesian grid in x-slowest order.  Complements the symbolic probe clauses (which hold for all
-    grid sizes but speak about one store) — reported under `bounded`, never counted as proved."""
-    SIZES = ["2x3", "3x2", "4x2", "2x2x3", "3x2x2"]
-
-    def cases(self):
-        return list(self.SIZES)
-
-    def setup(self, ctx, case):
-        ng = [int(x) for x in case.split("x")]
-        d = len(ng)
-        N = ctx.int("N")
-        ctx.assume(N >= 1)
-        watch = []
-        snaps, F = _snapshots(ctx, 1, N, d=d, watch=watch)
-        C = ctx.array("A", (1, N), "float", origin="argument condition")
-        ngrids = A.from_nested(ng, "int")
-        pl = [1, 1, 1]
-        ppp = A.from_nested(pl, "int")
-        sigma, cut = ctx.real("sigma"), ctx.real("cut")
-        ctx.assume(sigma > 0)
-        ctx.assume(cut > 0)
-        return [snaps, C, ngrids], {"sigma": sigma, "ppp": ppp, "gaussian_cut": cut}, dict(ng=ng, d=d, F=F)
-
-    def clause_names(self, case):
-        return ["bounded:returned-grid=full-cartesian-grid-x-slowest"]
-
-    def ensures(self, ctx, case, inp, out):
-        import itertools
-        ng, d, BB = inp["ng"], inp["d"], inp["F"]["BB"]
-        res = out.value
-        if not (isinstance(res, tuple) and isinstance(res[0], A.Arr) and res[0].ndim == 3):
-            yield "bounded:returned-grid=full-cartesian-grid-x-slowest", False
-            return
-        GP = res[0]
-        goals = []
-        for p, tup in enumerate(itertools.product(*[range(g) for g in ng])):
-            for c in range(d):
-                lo_c = sv.SV(BB(z3.IntVal(0), z3.IntVal(c), z3.IntVal(0)))
-                hi_c = sv.SV(BB(z3.IntVal(0), z3.IntVal(c), z3.IntVal(1)))
-                goals.append(sv.cmp("==", GP.get((0, p, c)), sv.add(lo_c, sv.mul(tup[c], sv.div(sv.sub(hi_c, lo_c), ng[c] - 1)))))
-        yield "bounded:returned-grid=full-cartesian-grid-x-slowest", sv.and_(*goals)
+def decode_lemmas():
+    """row-major decoding is a bijection between the flat positions [0, prod n) and the index tuples prod [0, n_c) (fresh variables,
+    symbolic grid numbers >= 1): together with the clause RET of gaussian_blurring (slot p holds the point with index tuple decode(p))
+    this is 'every grid point exactly once, x slowest'"""
+    out = []
+    for d in (2, 3):
+        ng = [sv.fresh_int(f"n{c}") for c in range(d)]
+        pos = sv.and_(*[sv.cmp(">=", g, 1) for g in ng])
+        G = 1
+        for g in ng:
+            G = sv.mul(G, g)
+        p = sv.fresh_int("p")
+        dec = decode_row_major(p, ng)
+        out.append((f"row-major-decode[d={d}]:maps-[0,prod-n)-into-the-index-ranges",
+                    sv.implies(sv.and_(pos, sv.cmp(">=", p, 0), sv.cmp("<", p, G)), sv.and_(*[sv.and_(sv.cmp(">=", x, 0), sv.cmp("<", x, g)) for x, g in zip(dec, ng)]))))
+        tup = [sv.fresh_int(f"i{c}") for c in range(d)]
+        flat = tup[0]
+        for c in range(1, d):
+            flat = sv.add(sv.mul(flat, ng[c]), tup[c])
+        inr = sv.and_(pos, *[sv.and_(sv.cmp(">=", x, 0), sv.cmp("<", x, g)) for x, g in zip(tup, ng)])
+        dec_flat = decode_row_major(flat, ng)
+        out.append((f"row-major-decode[d={d}]:every-index-tuple-is-the-decoding-of-exactly-one-position(surjective+order)",
+                    sv.implies(inr, sv.and_(sv.cmp(">=", flat, 0), sv.cmp("<", flat, G), *[sv.cmp("==", a, b) for a, b in zip(dec_flat, tup)]))))
+        q = sv.fresh_int("q")
+        dq = decode_row_major(q, ng)
+        out.append((f"row-major-decode[d={d}]:injective",
+                    sv.implies(sv.and_(pos, sv.cmp(">=", p, 0), sv.cmp("<", p, G), sv.cmp(">=", q, 0), sv.cmp("<", q, G), *[sv.cmp("==", a, b) for a, b in zip(dec, dq)]),
+                               sv.cmp("==", p, q))))
+        # x slowest: the lexicographic order of the index tuples is the order of the positions
+        if d == 2:
+            lex = sv.or_(sv.cmp("<", dec[0], dq[0]), sv.and_(sv.cmp("==", dec[0], dq[0]), sv.cmp("<", dec[1], dq[1])))
+        else:
+            lex = sv.or_(sv.cmp("<", dec[0], dq[0]), sv.and_(sv.cmp("==", dec[0], dq[0]), sv.cmp("<", dec[1], dq[1])),
+                         sv.and_(sv.cmp("==", dec[0], dq[0]), sv.cmp("==", dec[1], dq[1]), sv.cmp("<", dec[2], dq[2])))
+        out.append((f"row-major-decode[d={d}]:x-slowest(position-order=lexicographic-order-of-index-tuples)",
+                    sv.implies(sv.and_(pos, sv.cmp(">=", p, 0), sv.cmp("<", q, G), sv.cmp("<", p, q)), lex)))
+    return out
 
 
 def extra_checks(tier, seed, repo):
-    from pyvc import vc
-    u = _BoundedGrid()
-    bounded = []
-    for case in u.cases():
-        r = vc.run_unit(u, case, tier)
-        obs = {o["name"].split(":", 1)[1]: o["status"] for o in r.get("obligations", [])}
-        status = obs.get("bounded:returned-grid=full-cartesian-grid-x-slowest", "UNDECIDED")
-        if r.get("error"):
-            status = "UNDECIDED"
-        elif obs.get("safety") != "PROVED" and status == "PROVED":
-            status = "REFUTED" if obs.get("safety") == "REFUTED" else "UNDECIDED"
-        bounded.append({"name": f"gaussian_blurring[bounded grid {case}, T=1]:returned-grid=full-cartesian-grid-x-slowest", "sizes": {"ngrids": case, "T": 1},
-                        "status": status, "safety": obs.get("safety"), "error": r.get("error"), "wall_s": r.get("wall_s")})
-    return {"bounded": bounded}
+    from pyvc.vc import prove_lemmas
+    a, b, q, r = (sv.fresh_int(x) for x in "abqr")
+    return {"obligations": prove_lemmas("C16", [("euclidean-division-is-unique", divmod_unique(a, b, q, r))] + decode_lemmas(), timeout=20)}
+
+
+def replay_extra(rec):
+    return {"ran": False, "failed": False, "error": "lemma obligations have no concrete replay"}
+
 
 UNITS = [TimeAverage(), SpatialAverage(), GridGaussian(), GaussianBlurring()]
 # callee contracts of other properties used at call sites: their units are re-verified with this check
@@ -882,5 +929,5 @@ UNITS = UNITS + _callee_units([('C02', None), ('C05', {'read_neighbors'})], UNIT
 
 MANIFEST = {
     "text": "time_average, spatial_average, gaussian_blurring (utils/coarse_graining.py) and grid_gaussian (utils/funcs.py), real ASTs re-read every run, symbolic frame number T, particle number N, trailing dimensions, grid sizes n0,n1(,n2) >= 2, window length, Nmax, sigma, cutoff, periodicity mask: (1) time_average returns T-w rows with w = floor(period/((ts1-ts0) dt)), row n = mean of frames n..n+w-1 (float and complex input), and reports the central frame of that window (n+(w-1)/2 for odd w, one of the two middle frames for even w); (2) spatial_average[n,i,..] = (A[n,i,..] + sum over the first min(cn,Nmax) listed neighbours j of A[n,j,..]) / (1 + min(cn,Nmax)) for ranks 0,1,2 (float, complex), with the n-th record of the neighbour file used for frame n (one handle, read_neighbors callee contract), input array not written, saved file = returned array; (3) gaussian_blurring: the store that fills the grid uses a flat index that lies in [0, prod n), is injective on the index tuples, equals the row-major index with x slowest, the loops run over all n0*n1(*n2) tuples, and the stored point is (X_i,Y_j[,Z_k]) with X,Y,Z equally spaced from the lower to the upper box bound of the same frame (2D and 3D, equal or unequal numbers per axis); for every frame n, returned grid point p and trailing index, grid_property = sum over particles q with |D| < cutoff of exp(-|D|^2/(2 sigma^2))/sqrt(2 pi sigma^2) * property[n,q,..], D the minimum image (C02 contract) of grid point minus particle position (scalar, vector, tensor); inputs not written, saved files = returned arrays; (4) grid_gaussian(x, sigma) = exp(-x^2/(2 sigma^2))/sqrt(2 pi sigma^2) elementwise.",
-    "note": "floats as reals (A1); callee contracts of read_neighbors (assumed here, C05) and remove_pbc (C02); well-formed neighbour file and non-singular cells assumed; the passage from the per-store facts to the content of the returned grid array for symbolic grid sizes is the scatter-store lemma (bounded engine runs on 5 small grids check the returned array itself, reported separately); loop summaries are checked by init/step obligations; on the pinned tree before the two fix commits the clauses middle-index (time_average) and flat-index in range / injective / row-major (gaussian_blurring) are REFUTED with failing replays (design_notes/C16.md)",
+    "note": "floats as reals (A1); callee contracts of read_neighbors (assumed here, C05) and remove_pbc (C02); well-formed neighbour file and non-singular cells assumed; the content of the RETURNED grid array for symbolic grid sizes is proved through a written ghost inverse of the flat index (row-major decoding; slot written by exactly the iteration decode(p): obligations on the real store) + the lemma that decoding is an order-preserving bijection; loop summaries are checked by init/step obligations; on the pinned tree before the two fix commits the clauses middle-index (time_average) and flat-index in range / injective / row-major (gaussian_blurring) are REFUTED with failing replays (design_notes/C16.md)",
 }
